@@ -76,7 +76,7 @@ def run(ctx):
     K.k1_block(res, ctx, 'contracts.c05:registry_get', K1_GET, 'C05.')
     _lemmas(res)
     _grammar(res)
-    K.canary_contract(res, 'contracts.c05', 'AstBuilder.parse', 'whole_formula', 'result == entry_token(expression)')
+    K.canary_contract(res, 'contracts.c05', 'AstBuilder.parse', 'whole_formula', 'len(entry_rest(expression)) > 0')
     K.monitor_if_present(res, ctx, 'mon_c05')
     res.trusted_base += ['assumed contract of EntryPointToken.get (token or None, unconsumed rest)', 'CPython re']
     res.assumptions += ['tokens are modelled as immutable values (lexer token: width 1; composite: node(class, parts)); the set '
